@@ -54,7 +54,7 @@ def cases():
                     if not defs[j]:
                         out.append({"c": name, "defs": list(defs), "pre": pre, "use": f"sib{j}", "ctx": "seq"})
     # state boundary (coroutines): define, await, use
-    for pre_kind in ("straight", "in_if", "in_loop", "redefined_after_await"):
+    for pre_kind in ("straight", "in_if", "in_loop", "redefined_after_await", "loop_continue", "loop_continue_else"):
         out.append({"c": "state", "defs": [1], "pre": 0, "use": pre_kind, "ctx": "coro"})
     # the same placements with a REFERENCE carrying a run-time index (t = self.d[self.i2]: the index is an intermediate
     # hidden in the reference) instead of a computed value
@@ -200,6 +200,12 @@ def render_src(c):
             B = ["t = self.d + 1", "if self.b:", "    await self.a", "self.o <<= t"]
         elif u == "in_loop":
             B = ["t = self.d + 1", "while self.b:", "    self.m <<= self.m + 1", "self.o <<= t"]
+        elif u == "loop_continue":
+            # the loop head (with the definition) is inlined again where `continue` is taken in the later state; the use on
+            # the other path still reads a value of the earlier state
+            B = ["while True:", "    t = self.d + 1", "    await self.a", "    if self.b:", "        continue", "    self.o <<= t"]
+        elif u == "loop_continue_else":
+            B = ["while True:", "    t = self.d + 1", "    await self.a", "    if self.b:", "        self.m <<= 1", "        continue", "    else:", "        self.o <<= t"]
         else:
             B = ["t = self.d + 1", "self.m <<= t", "await self.a", "t = self.d + 2", "self.o <<= t"]
         return "\n".join(H + ["            " + l for l in B]) + "\n"
